@@ -373,6 +373,7 @@ class Facts:
         if which == "lib" and os.environ.get("PFA_NO_VARNAMES") != "1":
             self._canonical_function_names(p)
             self._canonical_const_names()
+            self._canonical_field_names()
             self.inlined = {}
             rp = os.path.join(os.path.dirname(os.path.dirname(os.path.abspath(__file__))), "reference", "fnnames.json")
             if os.path.exists(rp) and os.environ.get("PFA_NO_INLINE") != "1":
@@ -437,6 +438,45 @@ class Facts:
             cs, gs = c.replace("preflate_rs::", "", 1), g.replace("preflate_rs::", "", 1)
             self.fn_renamed[c] = g
         self.j = json.loads(raw)
+
+    # ---- nor the names of struct fields -----------------------------------------------------------------
+    def _canonical_field_names(self):
+        """A struct whose fields kept their number, order and types but changed names gets the reference names back (UB
+        summaries, descriptors and tables address fields by name).  Only when the new name is not a field name of any other
+        type of the crate, so that the textual substitution over the projections cannot hit anything else."""
+        rp = os.path.join(os.path.dirname(os.path.dirname(os.path.abspath(__file__))), "reference", "adtfields.json")
+        if not os.path.exists(rp):
+            return
+        ref = json.load(open(rp))
+        adts = self.j.get("adts", {})
+        all_names = {}
+        for a, v in adts.items():
+            for var in v.get("variants", []):
+                for f in var.get("fields", []):
+                    all_names.setdefault(f["name"], set()).add(a)
+        ren = {}
+        for a, rfields in ref.items():
+            cur = adts.get(a)
+            if not cur or cur.get("kind") != "struct" or len(cur.get("variants", [])) != 1:
+                continue
+            cf = cur["variants"][0]["fields"]
+            if len(cf) != len(rfields) or [f["ty"] for f in cf] != [t for _, t in rfields]:
+                continue
+            for f, (rn, _) in zip(cf, rfields):
+                if f["name"] != rn and all_names.get(f["name"]) == {a} and rn not in all_names and not f["name"].isdigit():
+                    ren[f["name"]] = rn
+        if not ren:
+            return
+        raw = json.dumps(self.j)
+        for new, old in ren.items():
+            raw = raw.replace('"n": "%s"' % new, '"n": "%s"' % old)
+            self.fn_renamed["field:" + new] = old
+        self.j = json.loads(raw)
+        for a, v in self.j.get("adts", {}).items():
+            for var in v.get("variants", []):
+                for f in var.get("fields", []):
+                    if f["name"] in ren and all_names.get(f["name"]) == {a}:
+                        f["name"] = ren[f["name"]]
 
     # ---- nor the names and homes of constants -------------------------------------------------------------
     def _canonical_const_names(self):
